@@ -12,7 +12,9 @@ program   setup actions performed before run() + scripts attached to callbacks (
             ["rm_idle", k, mode]      loop.remove_enter_idle(handle)
             ["write", fd, n]          n bytes become readable on descriptor fd_i now
             ["busy", u]               the callback takes u units of time (several events fall due)
-            ["raise", kind]           0: ExitMainLoop, 1: Boom (any other exception)
+            ["raise", kind]           0: ExitMainLoop, 1: Boom (an Exception subclass), 2: SystemExit (sys.exit() in a
+                                      callback), 3: KeyboardInterrupt, 4: Abort (an application-defined BaseException
+                                      subclass): "any other exception" of the property, inside and outside Exception
           script = [[n, action], ...]: an alarm callback performs every action; a watch / idle
           callback performs the actions whose n equals its invocation index (0, 1, 2).
 
@@ -58,7 +60,8 @@ LEVEL = "exploration"
 RULE = (
     "Hypothesis-generated programs: <=6 setup actions and nested callback scripts (depth <=3, <=4 actions "
     "each) over alarm(d in 0..4 units) / remove_alarm / watch_file (3 descriptors) / remove_watch_file / "
-    "enter_idle / remove_enter_idle / write n bytes / busy u units / raise ExitMainLoop|Boom, removal "
+    "enter_idle / remove_enter_idle / write n bytes / busy u units / raise ExitMainLoop | an Exception subclass | "
+    "SystemExit | KeyboardInterrupt | an application-defined BaseException subclass, removal "
     "targets chosen modulo the live state (pending, already removed, self, sibling). virtual: "
     "SelectEventLoop under a virtual clock with an external readiness schedule (<=5 arrivals at instants "
     "0..12) and a generated order of each ready batch, one program time unit being 1 s or (40 %) a "
@@ -68,7 +71,12 @@ RULE = (
     "Deterministic sweeps: watch hand-over inside one ready batch (virtual); every history of 5 (thorough: 1..6) "
     "watch_file / remove_watch_file calls over 3 descriptors (each step: watch a free descriptor or remove one "
     "of the live watches), performed before run() or inside an alarm callback, then every descriptor made "
-    "readable - on all six real loops and (1..6 calls, both placements) under the virtual clock; alarmq: "
+    "readable - on all six real loops and (1..6 calls, both placements) under the virtual clock; idle-table edits: "
+    "every table of 3 (thorough and virtual: 1..4) idle callbacks x every actor (first alarm's callback, a watch "
+    "callback, idle callback a at its first or second invocation) x every edit (remove_enter_idle of callback j, self "
+    "included / enter_idle of a new one / both), followed by two quiescent stretches; exception matrix: callback kind "
+    "(alarm, watch, idle) x the five exception kinds x alone / among other registrations - both on all six real "
+    "loops and under the virtual clock; alarmq: "
     "every registration order of <=7 due times x one removal, plus random queues of <=14 alarms whose due "
     "times mix seconds, minutes, hours, days, ... up to 40 x 10**9 s. "
     "Non-trivial: some callback script adds or removes a registration, or a callback is busy across other "
@@ -92,6 +100,11 @@ ASSUMPTIONS = [
     "callbacks running after the first exception and spurious watch calls are not asserted (statement silent)",
     "a second run() after run() re-raised must not raise the stale exception again (reading of 'exactly "
     "once'); not exercised on Twisted, whose reactor cannot be restarted",
+    "'an exception raised in any callback' is read as any BaseException (sys.exit() or KeyboardInterrupt in a "
+    "callback are the common cases; abstract_loop.EventLoop.run says 'any callback raises an exception'); "
+    "'re-raised from run()' is read as: when exactly one callback raised during the run, run() raises that exception "
+    "(the same object, or an equal one of the same class) and not an exception group around it; when several "
+    "callbacks raised, any of them or a group of them is accepted",
 ]
 
 STEP = 0.020  # real-time unit (seconds)
@@ -113,6 +126,17 @@ def _stat(k, n=1):
 
 class Boom(Exception):
     """the 'any other exception' of the property"""
+
+
+class Abort(BaseException):
+    """an application-defined exception that deliberately does not derive from Exception (like
+    SystemExit / KeyboardInterrupt / GeneratorExit / asyncio.CancelledError in the standard library)"""
+
+
+# ["raise", kind]: kind 0 is ExitMainLoop; every other kind is "an exception raised in a callback" that run() must
+# re-raise.  Labels of kind 1 stay "<callback>#<invocation>", the others are prefixed with the class name.
+RAISE_KINDS = {1: Boom, 2: SystemExit, 3: KeyboardInterrupt, 4: Abort}
+RAISE_NAMES = {0: "exit", 1: "boom", 2: "systemexit", 3: "keyboardinterrupt", 4: "abort"}
 
 
 class _EndOfScenario(ExitMainLoop):
@@ -175,6 +199,7 @@ class Runtime:
         self.idles: dict[str, dict] = {}
         self.keep = []  # every handle stays referenced (ZMQ's handle owns the descriptor)
         self.cur = None  # (kind, name, invocation) of the running callback
+        self.thrown: list[tuple[BaseException, str]] = []  # every exception a script raised, with its label
 
     def log(self, **ev):
         ev["t"] = self.w.now()
@@ -283,7 +308,13 @@ class Runtime:
             if self.cur is not None:
                 if a[1] == 0:
                     raise ExitMainLoop()
-                raise Boom(f"{self.cur[1]}#{self.cur[2]}")
+                cls = RAISE_KINDS[a[1]]
+                label = f"{self.cur[1]}#{self.cur[2]}"
+                if cls is not Boom:
+                    label = f"{cls.__name__}:{label}"
+                exc = cls(label)
+                self.thrown.append((exc, label))
+                raise exc
         else:
             raise AssertionError(a)
 
@@ -308,13 +339,14 @@ class Runtime:
             except ExitMainLoop:
                 x = "exit"
                 raise
-            except Boom as e:
-                x = e.args[0]
-                raise
             except (Violation, Discard):
                 raise
-            except Exception as e:  # an API call made from the callback failed
-                x = _foreign_id(e)
+            except BaseException as e:
+                x = self.label_of(e)
+                if x is None:
+                    if not isinstance(e, Exception):
+                        raise  # not ours (the runner's watchdog / budget signal): none of the harness's business
+                    x = _foreign_id(e)  # an API call made from the callback failed
                 raise
             finally:
                 self.cur = outer
@@ -332,10 +364,38 @@ class Runtime:
                 self.do(a)
             except (Violation, Discard):
                 raise
-            except Exception as e:
-                self.log(e="setup_error", x=_foreign_id(e), a=repr(a))
+            except BaseException as e:
+                if not isinstance(e, Exception) and not self.ours(e):
+                    raise
+                self.log(e="setup_error", x=self.exc_id(e), a=repr(a))
                 return False
         return True
+
+    # ---- what came out of run() ------------------------------------------------------------------
+    def label_of(self, e):
+        """label of an exception one of the scripts raised: the very object, or (weaker reading of 're-raised')
+        an equal one - same class, same arguments; the argument is the unique label - else None"""
+        for obj, label in self.thrown:
+            if obj is e:
+                return label
+        for obj, label in self.thrown:
+            if type(obj) is type(e) and obj.args == e.args:
+                return label
+        return None
+
+    def ours(self, e):
+        return any(self.label_of(x) is not None or isinstance(x, ExitMainLoop) for x in _leaves(e))
+
+    def exc_id(self, e):
+        """label | 'exit' | '!foreign' | 'group[id,id...]' (an exception group, flattened: run() raised a wrapper)"""
+        if isinstance(e, BaseExceptionGroup):
+            return "group[" + ",".join(self.exc_id(x) for x in _leaves(e)) + "]"
+        label = self.label_of(e)
+        if label is not None:
+            return label
+        if isinstance(e, ExitMainLoop):
+            return "exit"
+        return _foreign_id(e)
 
     def run_once(self):
         self.log(e="run_start")
@@ -343,8 +403,10 @@ class Runtime:
             self.loop.run()
         except (Violation, Discard):
             raise
-        except Exception as e:
-            self.log(e="run_end", out="raised", x=_exc_id(e))
+        except BaseException as e:
+            if not isinstance(e, Exception) and not self.ours(e):
+                raise  # the runner's watchdog / budget signal
+            self.log(e="run_end", out="raised", x=self.exc_id(e))
             return "raised"
         self.log(e="run_end", out="returned", x=None, q=bool(getattr(self.w, "ended", False)))
         return "returned"
@@ -363,14 +425,12 @@ def _foreign_id(e):
     return f"!{type(e).__name__}@{_where(e)}: {str(e)[:120]}"
 
 
-def _exc_id(e):
-    if isinstance(e, Boom):
-        return e.args[0]
+def _leaves(e):
     if isinstance(e, BaseExceptionGroup):
-        return "group[" + ",".join(_exc_id(x) for x in e.exceptions) + "]"
-    if isinstance(e, ExitMainLoop):
-        return "exit"
-    return _foreign_id(e)
+        for x in e.exceptions:
+            yield from _leaves(x)
+    else:
+        yield e
 
 
 # ---------------------------------------------------------------------------------------------
@@ -576,6 +636,14 @@ def check_trace(trace, mode, loopname):
                 if out != "raised":
                     raise Violation(
                         "exception-swallowed", f"callback raised {raised[0]} but run() returned normally"
+                    )
+                if len(raised) == 1 and x != raised[0]:
+                    # every id of x is in `raised` (checked above), so x is a group around the one exception.
+                    # "re-raised from run()": the caller's `except SystemExit` / `except Boom` must see it.  With
+                    # several callbacks raising in one run a group is all a loop can do: nothing asserted then.
+                    raise Violation(
+                        "exception-wrapped",
+                        f"the only exception a callback raised is {raised[0]}; run() did not re-raise it but raised {x}",
                     )
             elif all(r == "exit" for r in raised):
                 if out != "returned":
@@ -1037,7 +1105,7 @@ def _leaf(in_cb):
     ]
     if in_cb:
         opts.append(st.tuples(st.just("busy"), st.integers(1, 3)))
-        opts.append(st.tuples(st.just("raise"), st.sampled_from([0, 1, 1])))
+        opts.append(st.tuples(st.just("raise"), st.sampled_from([0, 0, 1, 1, 1, 2, 3, 4])))
     return st.one_of(*opts).map(list)
 
 
@@ -1135,7 +1203,7 @@ def _classify(case):
         elif k in ("alarm", "watch", "idle"):
             out.add(f"{sub}:{ctx}-callback-adds-{k}")
         elif k == "raise":
-            out.add(f"{sub}:{ctx}-callback-raises-{'exit' if a[1] == 0 else 'boom'}")
+            out.add(f"{sub}:{ctx}-callback-raises-{RAISE_NAMES[a[1]]}")
         elif k == "busy":
             out.add(f"{sub}:busy-callback")
     if "ready" in case:
@@ -1210,6 +1278,69 @@ def _watch_history_cases(loops, lmin, lmax, placements):
                 yield case
 
 
+def _idle_table_cases(loops, sizes):
+    """every idle table of n callbacks (n in sizes) x every actor - the callback of the first alarm, a watch callback,
+    or idle callback number a at its first or second invocation - x every single edit of the table made by that actor:
+    remove_enter_idle of callback j (any j, the actor itself included), enter_idle of a new callback, or both.  A
+    second alarm 4 units later (and the harness's final alarm 3 units after that) bound the quiescent stretches in
+    which the trace oracle looks: every callback registered throughout ran after the alarm / watch callback, a removed
+    one did not run again."""
+    for loop in loops:
+        for n in sizes:
+            actors = [("alarm",), ("watch",)] + [("idle", a, v) for a in range(n) for v in (0, 1)]
+            for actor in actors:
+                me = actor[1] if actor[0] == "idle" else None
+                removals = []
+                for j in range(n):
+                    if j == me:
+                        removals.append(["rm_idle", 0, 1])  # mode 1: the running idle callback itself
+                    else:  # mode 0: the k-th registered idle callback other than the running one
+                        removals.append(["rm_idle", j if me is None or j < me else j - 1, 0])
+                add = ["idle", []]
+                for edit in [*([r] for r in removals), [add], *([r, add] for r in removals)]:
+                    at = actor[2] if actor[0] == "idle" else 0
+                    script = [[at, e] for e in edit]
+                    idles = [["idle", script if i == me else []] for i in range(n)]
+                    if actor[0] == "alarm":
+                        rest = [["alarm", 0, script], ["alarm", 4, []]]
+                    elif actor[0] == "watch":
+                        rest = [["watch", 0, script], ["alarm", 0, [[0, ["write", 0, 1]]]], ["alarm", 4, []]]
+                    else:
+                        rest = [["alarm", 0, []], ["alarm", 4, []]]
+                    case = {"setup": [*idles, *rest], "idle_edit": True, "idle_raise": False}
+                    if loop is None:
+                        case.update(ready=[], order=0, scale=1)
+                    else:
+                        case.update(loop=loop, keeper=True)
+                    yield case
+
+
+def _exception_cases(loops):
+    """every callback kind (alarm, watch, idle) x every exception kind (ExitMainLoop, an Exception subclass, SystemExit,
+    KeyboardInterrupt, an application-defined BaseException subclass) x raised by the only registration there is / with
+    an idle callback, a later alarm and unread data on a watched descriptor around it; an idle callback raises at its
+    first / second invocation.  (Real loops: followed by a second run(), see _child_body.)"""
+    for loop in loops:
+        for ck in ("alarm", "watch", "idle"):
+            for kind in sorted(RAISE_NAMES):
+                for variant in (0, 1):
+                    boom = ["raise", kind]
+                    if ck == "alarm":
+                        setup = [["alarm", 0, [[0, boom]]]]
+                    elif ck == "watch":
+                        setup = [["watch", 0, [[0, boom]]], ["write", 0, 1]]
+                    else:
+                        setup = [["idle", [[variant, boom]]], ["alarm", 0, []], ["alarm", 1, []]]
+                    if variant and ck != "idle":
+                        setup = [["idle", []], ["watch", 1, []], ["write", 1, 2], *setup, ["alarm", 1, []]]
+                    case = {"setup": setup, "idle_edit": False, "idle_raise": True}
+                    if loop is None:
+                        case.update(ready=[], order=0, scale=1)
+                    else:
+                        case.update(loop=loop, keeper=True)
+                    yield case
+
+
 def _alarmq_sweep(nmax):
     """every registration order of n distinct due times (n <= nmax) x one removal before run()"""
     for n in range(2, nmax + 1):
@@ -1247,6 +1378,20 @@ def shard(ctx):
         ctx.sweep("real", _watch_history_cases(LOOPS, 5 if quick else 1, 5 if quick else 6, ["alt"] if quick else [0, 1]),
                   nontrivial=lambda c: True, classify=lambda c: [f"real:{c['loop']}:watch-history"],
                   exhaustive_name="real loops: every watch_file/remove_watch_file history of 5 (1..6) calls over 3 descriptors")
+    if ctx.failure is None:
+        # idle-table edits by every kind of callback: quick = tables of 3 idle callbacks, thorough = 1..4
+        ctx.sweep("real", _idle_table_cases(LOOPS, [3] if quick else [1, 2, 3, 4]),
+                  nontrivial=lambda c: True, classify=lambda c: [f"real:{c['loop']}:idle-table-edit"],
+                  exhaustive_name="real loops: idle table of 3 (1..4) callbacks x actor (alarm / watch / idle callback a at "
+                                  "invocation 0|1) x edit (remove j / add / remove j + add)")
+    if ctx.failure is None:
+        ctx.sweep("real", _exception_cases(LOOPS),
+                  nontrivial=lambda c: True, classify=lambda c: [f"real:{c['loop']}:exception-matrix"],
+                  exhaustive_name="real loops: callback kind (3) x exception kind (5) x context (2)")
+    if ctx.failure is None:
+        ctx.sweep("virtual", itertools.chain(_idle_table_cases([None], [1, 2, 3, 4]), _exception_cases([None])),
+                  nontrivial=lambda c: True, classify=lambda c: ["virtual:idle-table-edit/exception-matrix"],
+                  exhaustive_name="virtual: idle table of 1..4 callbacks x actor x edit; callback kind x exception kind x context")
     if ctx.failure is None:
         ctx.sweep("virtual", _watch_history_cases([None], 1, 6, [0, 1]),
                   nontrivial=lambda c: True, classify=lambda c: ["virtual:watch-history"],
@@ -1358,7 +1503,19 @@ def _known_idle_table_edit(sub, case, v):
     return edits and loop in ("tornado", "trio") and v.clause == "idle-skipped"
 
 
+def _known_tornado_baseexception_swallowed(sub, case, v):
+    # TornadoEventLoop.handle_exit has `except Exception`: anything else escapes into asyncio's Handle._run, which
+    # lets SystemExit / KeyboardInterrupt through (they end IOLoop.start(), so run() does raise them) and hands every
+    # other BaseException to the loop's exception handler (logged), after which the loop keeps running
+    return (
+        _loop_of(sub, case) == "tornado"
+        and v.clause == "exception-swallowed"
+        and re.search(r"callback raised Abort:[AWI]\d+#", v.message) is not None
+    )
+
+
 KNOWN = {
+    "C13-tornado-baseexception-swallowed": _known_tornado_baseexception_swallowed,
     "C13-select-stale-ready-batch": _known_select_stale_batch,
     "C13-idle-table-edit": _known_idle_table_edit,
     "C13-zmq-empty-poller-early-alarm": _known_zmq_empty_poller,
